@@ -40,7 +40,10 @@ def minify_lib(chunks, args):
     from pico8.lua import lua as plua
     l = plua.Lua.from_lines(list(chunks), version=8)
     out = b''.join(l.to_lines(writer_cls=plua.LuaMinifyTokenWriter, writer_args=args))
-    return l, out
+    # the same object minified once more (a tool that measures, then writes - as the .p8 writer does): if that differs
+    # from the first output it is the one handed to the oracle
+    out2 = b''.join(l.to_lines(writer_cls=plua.LuaMinifyTokenWriter, writer_args=dict(args)))
+    return l, (out if out2 == out else out2)
 
 
 def scoped_ranges(kept):
